@@ -337,7 +337,10 @@ def worker(job):
             if isinstance(a, np.ma.MaskedArray):
                 keep = keep & ~np.ma.getmaskarray(a)
             g, w = np.asarray(gd)[keep], np.asarray(refd)[keep]
-            ok = ulp_close(g.astype(np.float64), w.astype(np.float64), 8) if w.dtype.kind == "f" else (g.astype(object) == w.astype(object))
+            # floating results are compared at the precision of the *result* dtype (a float32 mean is the float32
+            # rounding of the exact mean; the reference may have been accumulated in float64)
+            fd = g.dtype if g.dtype.kind == "f" else np.dtype(np.float64)
+            ok = ulp_close(g.astype(fd), w.astype(fd), 8) if w.dtype.kind == "f" else (g.astype(object) == w.astype(object))
             if not np.all(ok):
                 rec["fail"].append((mode, "reduction-counts-nulls", f"got {g.tolist()} want {w.tolist()}"[:200]))
             continue
